@@ -129,6 +129,12 @@ func c15mSeq(variant string, ops []string) func(x *sched.Exec) {
 				}
 				if err == nil {
 					shutOK, readerShut = true, true
+				} else if errors.Is(err, ErrReaderShutdown) && shutTried {
+					// "already shut down": the reader itself claims the earlier Shutdown did the job, so
+					// from here on it must behave as shut down (exporter shut down once, Collect refuses)
+					shutOK, readerShut = true, true
+				}
+				if err == nil {
 				} else if !errors.Is(err, ErrReaderShutdown) && op != "ShutdownC" {
 					x.Fail("C15|shutdown-error|metrics", "%s returned %v (%s)", op, err, where(i))
 				} else if errors.Is(err, ErrReaderShutdown) && !shutTried {
